@@ -223,7 +223,16 @@ def candidate_scan_complete(ck, rule):
         bad = None
         for x in exits:
             tests = [a.test for a in _ancestors(parents, x) if isinstance(a, ast.If)]
-            if any("maxDistance" in ast.unparse(t) for t in tests):
+            # names that stand for a window bound: assigned from an expression that mentions maxDistance (directly or through
+            # another such name)
+            bound_names = set()
+            for _ in range(3):
+                for asg in [y for y in ast.walk(g.node) if isinstance(y, ast.Assign) and len(y.targets) == 1 and isinstance(y.targets[0], ast.Name)]:
+                    txt = ast.unparse(asg.value)
+                    if "maxDistance" in txt or any(isinstance(z, ast.Name) and z.id in bound_names for z in ast.walk(asg.value)):
+                        bound_names.add(asg.targets[0].id)
+            if any("maxDistance" in ast.unparse(t) or any(isinstance(z, ast.Name) and z.id in bound_names for z in ast.walk(t))
+                   for t in tests):
                 raise AnalysisError(f"{where(g, x)}: the window's end is written as an early exit, which is not analysed here")
             bad = bad or (x, tests)
         if bad:
